@@ -34,7 +34,8 @@ import multiprocessing
 from . import VERIF
 
 DEFAULT_SEED = 20261001
-RUN_TIMEOUT_S = 60
+RUN_TIMEOUT_S = 1800        # wall-clock safety net per run (hangs)
+RUN_CPU_TIMEOUT_S = 600     # CPU time per run: independent of machine load
 
 
 def derive_rng(seed, prop, family, idx):
@@ -65,19 +66,24 @@ def _worker(args):
         _MOD = __import__(modname, fromlist=["x"])
     out = []
     signal.signal(signal.SIGALRM, _alarm)
+    signal.signal(signal.SIGVTALRM, _alarm)
     for idx in range(lo, hi):
         rng = derive_rng(seed, prop, family, idx)
         t0 = time.time()
         try:
             signal.setitimer(signal.ITIMER_REAL, RUN_TIMEOUT_S)
+            signal.setitimer(signal.ITIMER_VIRTUAL, RUN_CPU_TIMEOUT_S)
             r = _MOD.run_one(family, rng, idx, tier) or {}
             signal.setitimer(signal.ITIMER_REAL, 0)
+            signal.setitimer(signal.ITIMER_VIRTUAL, 0)
         except RunTimeout:
             signal.setitimer(signal.ITIMER_REAL, 0)
-            r = {"harness": "run timeout (%ss) family=%s idx=%d" %
-                 (RUN_TIMEOUT_S, family, idx)}
+            signal.setitimer(signal.ITIMER_VIRTUAL, 0)
+            r = {"harness": "run timeout (%ss cpu / %ss wall) family=%s idx=%d" %
+                 (RUN_CPU_TIMEOUT_S, RUN_TIMEOUT_S, family, idx)}
         except Exception:
             signal.setitimer(signal.ITIMER_REAL, 0)
+            signal.setitimer(signal.ITIMER_VIRTUAL, 0)
             r = {"harness": "harness exception family=%s idx=%d\n%s" %
                  (family, idx, traceback.format_exc())}
         r["_w"] = time.time() - t0
@@ -120,7 +126,7 @@ def write_replay(prop, seed, viol, family, idx):
     p = os.path.join(d, "%s-%d-%s-%d.json" % (prop, seed, family, idx))
     body = {"property": prop, "seed": seed, "family": family, "run_index": idx,
             "violation": {"cls": viol.get("cls"), "key": viol.get("key"),
-                          "msg": viol.get("msg")},
+                          "msg": viol.get("msg"), "minimised_from": viol.get("minimised_from")},
             "case": viol.get("case")}
     with open(p, "w") as f:
         f.write(json.dumps(body, indent=1, sort_keys=True, default=_jdefault))
@@ -279,16 +285,19 @@ def main(mod, argv=None):
             if v.get("key") in seen:
                 continue
             seen.add(v.get("key"))
-            if hasattr(mod, "shrink"):
-                try:
-                    signal.signal(signal.SIGALRM, _alarm)
-                    signal.setitimer(signal.ITIMER_REAL, 120)
+            try:
+                signal.signal(signal.SIGALRM, _alarm)
+                signal.setitimer(signal.ITIMER_REAL, 240)
+                if hasattr(mod, "shrink"):
                     v2 = mod.shrink(v)
-                    signal.setitimer(signal.ITIMER_REAL, 0)
-                    if v2 is not None:
-                        v = v2
-                except BaseException:
-                    signal.setitimer(signal.ITIMER_REAL, 0)
+                else:
+                    from .shrink import shrink_case
+                    v2 = shrink_case(mod, v)
+                signal.setitimer(signal.ITIMER_REAL, 0)
+                if v2 is not None:
+                    v = v2
+            except BaseException:
+                signal.setitimer(signal.ITIMER_REAL, 0)
             p = write_replay(prop, seed, v, fam, idx)
             replay_paths.append(p)
             lines.append("VIOLATION property=%s replay=%s" % (prop, p))
